@@ -23,10 +23,11 @@ RULE = ("histories = sequences of (op, name, kind) with op in {setattr, add}, na
         "histories of length <= 8; the invariant is evaluated after EVERY operation. distinct = the history; non-trivial = "
         "some name is used at least twice")
 ASSUMPTIONS = [
-    "aliasing one object under two names is not an operation of the property: every value is fresh",
+    "in the main histories every value is fresh; histories that alias one object under two names or in two modules are judged by the "
+    "post-condition of each assignment and by views/namespace agreement only (an object has one name and one parent)",
     "the invariant is checked at quiescent points only (after a public setattr/add returns or raises), never inside a pass",
 ]
-REQUIRED_COUNTERS = ["M-ns.module", "M-ns.bundle", "export.compared", "reject.probes"]
+REQUIRED_COUNTERS = ["M-ns.module", "M-ns.bundle", "export.compared", "reject.probes", "alias.ops"]
 MIN_EVALS = 5000
 MIN_NONTRIVIAL = 3000
 
@@ -121,6 +122,10 @@ def check_bundle(b, rec, where):
 
 def report(rec, problems, where, what):
     hist = _state["history"]
+    if _state.get("alias"):
+        # one object under two names / in two modules: its single `name` and parent can match only the last assignment (checked by
+        # the driver as a post-condition of that assignment); what remains demanded everywhere is that views and namespace agree
+        problems = [p for p in problems if p[0] not in ("name-disagrees", "parent-wrong")]
     for cls, msg in problems[:3]:
         rec.violation(f"{what}-{cls}", f"after {where}: {msg}" + (f"  [history {hist}]" if hist else ""),
                       case={"kind": what, "history": hist})
@@ -242,6 +247,48 @@ def run_history(rec, hist, on="module", export=False):
         _state["active"] = False
         _state["history"] = None
     return obj, model
+
+
+def alias_history(rec, hist, on):
+    """Histories that re-use objects: hist = [(target 0|1, op, name, value)] with value in P0 (one Signal object), P1 (one bundle
+    instance), P2 (one Instance; modules only), FS / FB (fresh Signal / bundle instance).  Post-condition of every assignment that
+    returns: the target's get(name) is the value, the value carries that name and (modules) reports the target as its parent; the
+    views/namespace agreement is checked by the riding hook."""
+    import hdl21 as h
+
+    _state["history"] = hist
+    _state["active"] = True
+    _state["alias"] = True
+    try:
+        targets = [h.Module(name=f"Al{next(_ctr)}") for _ in range(2)] if on == "module" else [h.Bundle(name=f"AlB{next(_ctr)}") for _ in range(2)]
+        pool = {"P0": h.Signal(), "P1": h.BundleInstance(of=lib()["B"]), "P2": h.Instance(of=lib()["E"]())}
+        for (t, op, name, v) in hist:
+            val = pool[v] if v in pool else (h.Signal(width=2) if v == "FS" else h.BundleInstance(of=lib()["B"]))
+            tgt = targets[t]
+            try:
+                if op == "setattr":
+                    setattr(tgt, name, val)
+                else:
+                    val.name = None
+                    tgt.add(val, name=name)
+            except Exception as e:
+                rec.count("alias.refused")
+                continue
+            rec.count("alias.ops")
+            bad = []
+            if tgt.get(name) is not val:
+                bad.append(f"get('{name}') is not the object just assigned")
+            if val.name != name:
+                bad.append(f"the object reports name '{val.name}'")
+            if on == "module" and getattr(val, "_parent_module", None) is not tgt:
+                bad.append("the object does not report the module it was just added to as its parent")
+            for b in bad:
+                rec.violation(f"{on}-assignment-postcondition", f"after {op} of {v} as '{name}' on target {t}: {b}  [history {hist}]",
+                              case={"kind": "alias", "on": on, "history": hist})
+    finally:
+        _state["active"] = False
+        _state["alias"] = False
+        _state["history"] = None
 
 
 def normalized_module(pkg, which=-1):
@@ -498,6 +545,22 @@ def run(ctx, rec):
         n = rng.randint(4, 8)
         on = "module" if rng.random() < 0.7 else "bundle"
         feed([rng.choice(mops if on == "module" else bops) for _ in range(n)], on)
+    # histories that re-use objects under several names / in two modules
+    aops_m = [(t, op, n, v) for t in (0, 1) for op in ("setattr", "add") for n in ("x", "y") for v in ("P0", "P1", "P2", "FS", "FB")]
+    aops_b = [(t, op, n, v) for t in (0, 1) for op in ("setattr", "add") for n in ("x", "y") for v in ("P0", "P1", "FS", "FB")]
+    for on, aops in (("module", aops_m), ("bundle", aops_b)):
+        hs_ = [h_ for l in (2, 3) for h_ in itertools.product(aops, repeat=l)]
+        if ctx.quick:
+            hs_ = rng.sample(hs_, 3000)
+        elif ctx.nshards > 1:
+            hs_ = hs_[ctx.shard:: ctx.nshards]
+        for h_ in hs_:
+            hh = [list(x) for x in h_]
+            rec.case(key=jhash(["alias", on, hh]), nontrivial=True, sample=None)
+            try:
+                alias_history(rec, hh, on)
+            except Exception as e:
+                rec.violation("edit-raised", f"alias {on} history {hh} raised {type(e).__name__}: {e}", case={"kind": "alias", "on": on, "history": hh})
     # exported final states
     for _ in range(400 if ctx.quick else 1500):
         n = rng.randint(2, 6)
